@@ -136,12 +136,16 @@ func genTeardown(repo string, fs facts) (string, error) {
 	epClose := p.fn("Endpoint", "Close")
 	epSend := p.fn("Endpoint", "sendAccept")
 	epRun := p.fn("Endpoint", "serve")
+	ecDial := p.fn("endpointClient", "Dial")
+	boxReceive := p.fn("connMailBox", "receive")
+	trServe := p.fn("transport", "serve")
 	for name, fd := range map[string]*ast.FuncDecl{"netutil.JoinConn": join, "proxy.hostConn": host,
 		"Server.ServeBackName": sbn, "endpointClient.Close": ecClose, "endpointClient.serve": ecServe,
 		"transport.shutdown": trShutdown, "transport.call": trCall, "transport.asyncCall": trAsync,
 		"endpointServer.serve": epServe, "endpointServer.cleanup": epCleanup, "endpointServer.handleDial": epDial,
 		"connections.shutdown": csShutdown, "connections.add": csAdd, "connection.cleanup": connCleanup,
-		"Endpoint.Accept": epAccept, "Endpoint.Close": epClose, "Endpoint.sendAccept": epSend, "Endpoint.serve": epRun} {
+		"Endpoint.Accept": epAccept, "Endpoint.Close": epClose, "Endpoint.sendAccept": epSend, "Endpoint.serve": epRun,
+		"endpointClient.Dial": ecDial, "connMailBox.receive": boxReceive, "transport.serve": trServe} {
 		if fd == nil {
 			return "", fmt.Errorf("%s not found", name)
 		}
@@ -175,6 +179,38 @@ func genTeardown(repo string, fs facts) (string, error) {
 		selectWith(p, trCall, "<-ctx.Done()", "<-done") &&
 		selectWith(p, trAsync, "<-ctx.Done()", "tr.calls <-")
 	reportsDisconnect := hasDefer(p, topLevel(sbn), "s.onDisconnect(name, session)")
+	// side mode: the wait for the side websocket ends when the endpoint's transport does.  `receive` has a
+	// channel parameter (after ctx) that its select also waits on, in an arm that returns; `Dial` hands it the
+	// transport's serveDone; `transport.serve` closes serveDone when it returns (deferred, first statement level).
+	sideDialSelectsGone := false
+	if ps := boxReceive.Type.Params.List; len(ps) >= 2 && len(ps[len(ps)-1].Names) == 1 {
+		gone := ps[len(ps)-1].Names[0].Name
+		ast.Inspect(boxReceive, func(n ast.Node) bool {
+			sel, ok := n.(*ast.SelectStmt)
+			if !ok {
+				return true
+			}
+			for _, c := range sel.Body.List {
+				cc := c.(*ast.CommClause)
+				if cc.Comm == nil || strings.ReplaceAll(p.src(cc.Comm), " ", "") != "<-"+gone {
+					continue
+				}
+				returns := false
+				for _, st := range cc.Body {
+					if _, ok := st.(*ast.ReturnStmt); ok {
+						returns = true
+					}
+				}
+				if returns && selectHas(p, sel, "<-ctx.Done()") && selectHas(p, sel, "<-b.ch") {
+					sideDialSelectsGone = true
+				}
+			}
+			return true
+		})
+	}
+	sideDialSelectsGone = sideDialSelectsGone &&
+		strings.Contains(strings.ReplaceAll(p.src(ecDial), " ", ""), "returnbox.receive(ctx,c.tr.serveDone)") &&
+		hasDefer(p, topLevel(trServe), "close(tr.serveDone)")
 	// every tunnel operation is a transport call, and serving the endpoint client is the transport's serve loop
 	tunnelOpsUseCall := true
 	for _, m := range []string{"Read", "Write", "Close"} {
@@ -241,15 +277,15 @@ func genTeardown(repo string, fs facts) (string, error) {
 	var b strings.Builder
 	b.WriteString("import PubModel.Sni.Teardown\nimport PubModel.Sni.EpTeardown\n\nnamespace PubModel.Gen.Teardown\n\n")
 	b.WriteString("/-- facts of the proxy-side teardown code, as read from the source -/\n")
-	fmt.Fprintf(&b, "def facts : PubModel.Sni.Teardown.Facts :=\n  { joinDefersCloseAll := %v\n    closeAllClosesBoth := %v\n    hostDefersFrontClose := %v\n    serveBackUnmaps := %v\n    closeClosesConn := %v\n    shutdownHasTimeout := %v\n    reportsDisconnect := %v }\n\n",
-		joinDefersCloseAll && bothDirections, closeAllClosesBoth, hostDefersFrontClose, serveBackUnmaps, closeClosesConn, shutdownHasTimeout, reportsDisconnect)
+	fmt.Fprintf(&b, "def facts : PubModel.Sni.Teardown.Facts :=\n  { joinDefersCloseAll := %v\n    closeAllClosesBoth := %v\n    hostDefersFrontClose := %v\n    serveBackUnmaps := %v\n    closeClosesConn := %v\n    shutdownHasTimeout := %v\n    reportsDisconnect := %v\n    sideDialSelectsGone := %v }\n\n",
+		joinDefersCloseAll && bothDirections, closeAllClosesBoth, hostDefersFrontClose, serveBackUnmaps, closeClosesConn, shutdownHasTimeout, reportsDisconnect, sideDialSelectsGone)
 	fmt.Fprintf(&b, "/-- tunnel.Read/Write/Close are transport calls (they inherit the first layer's contract) -/\ndef tunnelOpsUseCall : Bool := %v\n", tunnelOpsUseCall)
 	fmt.Fprintf(&b, "/-- endpointClient.serve is the transport's serve loop -/\ndef serveIsTransport : Bool := %v\n\n", serveIsTransport)
 	b.WriteString("/-- facts of the endpoint-side teardown code, as read from the source -/\n")
 	fmt.Fprintf(&b, "def epFacts : PubModel.Sni.EpTeardown.Facts :=\n  { serveDefersCleanup := %v\n    cleanupClosesAll := %v\n    addRefusesAfterShutdown := %v\n    dialCleansUnlessAdded := %v\n    acceptSelectsDone := %v\n    sendAcceptBounded := %v\n    closeBounded := %v\n    serveSignalsDone := %v }\n",
 		serveDefersCleanup, cleanupClosesAll, addRefusesAfterShutdown, dialCleansUnlessAdded, acceptSelectsDone, sendAcceptBounded, closeBounded, serveSignalsDone)
 	b.WriteString("\nend PubModel.Gen.Teardown\n")
-	fs["teardown.proxyFacts"] = joinDefersCloseAll && bothDirections && closeAllClosesBoth && hostDefersFrontClose && serveBackUnmaps && closeClosesConn && shutdownHasTimeout && reportsDisconnect
+	fs["teardown.proxyFacts"] = joinDefersCloseAll && bothDirections && closeAllClosesBoth && hostDefersFrontClose && serveBackUnmaps && closeClosesConn && shutdownHasTimeout && reportsDisconnect && sideDialSelectsGone
 	fs["teardown.epFacts"] = serveDefersCleanup && cleanupClosesAll && addRefusesAfterShutdown && dialCleansUnlessAdded && acceptSelectsDone && sendAcceptBounded && closeBounded && serveSignalsDone
 	return b.String(), nil
 }
